@@ -88,6 +88,11 @@ class Driver:
             for i in tups:
                 ev.append(("V_tup", i))
             for i in vecs:
+                ev.append(("V_storage_of", i))          # Vector(v.cols()): a new vector over v's own storage tuple (public API)
+            for t in tabs:
+                for c in range(min(len(sl[t].obj._underlying), 2)):
+                    ev.append(("V_storage_of_col", t, c))
+            for i in vecs:
                 for j in vecs:
                     if len(sl[i].obj) == len(sl[j].obj) and len(sl[i].obj) > 0:
                         ev.append(("T_vecs", i, j))
@@ -207,6 +212,18 @@ class Driver:
                 if t.kind != "tup":
                     raise Disabled()
                 return add_vec(Vector(t.obj))        # shares the caller's tuple; still its own vector
+            if op == "V_storage_of":
+                src = sl[ev[1]].obj
+                st = src.cols()
+                if type(st) is not tuple or st is not src._underlying:
+                    raise Disabled()
+                return add_vec(Vector(st))           # shares storage with the source; still its own vector
+            if op == "V_storage_of_col":
+                col = sl[ev[1]].obj._underlying[ev[2]]
+                st = col.cols()
+                if type(st) is not tuple or st is not col._underlying:
+                    raise Disabled()
+                return add_vec(Vector(st))
             if op == "T_dict":
                 k = world.fresh()
                 return add_tab(Table({"a": [k, k + 1], "b": [k + 2, k + 3]}))
